@@ -6,3 +6,6 @@ export GOFLAGS=-mod=mod GOPROXY=off GOSUMDB=off GOTOOLCHAIN=local
 ROOT="$(cd "$(dirname "$0")" && pwd)"
 mkdir -p "$ROOT/.bin" "$ROOT/evidence" "$ROOT/replays"
 cd "$ROOT/mc" && CGO_ENABLED=0 go build -o "$ROOT/.bin/check.setup" ./cmd/check && rm -f "$ROOT/.bin/check.setup"
+# warm the race-instrumented build used by the auxiliary race passes
+cd "$ROOT/mc" && CGO_ENABLED=1 go build -race -o "$ROOT/.bin/racepass.setup" ./cmd/racepass && rm -f "$ROOT/.bin/racepass.setup"
+exit 0
